@@ -582,6 +582,58 @@ func TamperMain(args []string) {
 				}
 				r.Count("regions_swept", 1)
 			}
+			// semantic mutation: JAR with the .SF embedded in the signature block; payload, manifest and .SF regenerated
+			// consistently while the signature block is kept
+			if typ == "jar" {
+				cj := &Case{Type: "jar", Mode: "standalone", Rounds: []round{{Key: key, Digest: "sha256", Outcome: "ok", Alt: true}}}
+				inl, _ := rp.Replay(cj, true)
+				if inl != "" {
+					if td, err := TamperInlineJar(inl); err == nil {
+						os.WriteFile(work, td, 0600)
+						r.Eval(true)
+						if err := verify(work, orig); err == nil {
+							r.Fail(map[string]string{"engine": "tamper", "type": "jar", "region": "regenerated-sf"}, map[string]any{"key": key},
+								"jar/%s (signature block with embedded .SF): a payload member was altered and MANIFEST.MF/.SF regenerated to match, the signature block left as is, and the verifier reports success", key)
+						}
+						r.Count("jar_semantic", 1)
+					} else {
+						r.Note("jar semantic mutation not applicable: %v", err)
+					}
+					os.RemoveAll(filepath.Dir(inl))
+				}
+			}
+			// semantic mutation: graft a VALID signature made over a different image into this file's certificate table
+			if (typ == "pe-dll" || typ == "pe-exe") && !strings.HasSuffix(final, ".tmp") {
+				c2 := &Case{Type: typ, Mode: "standalone", Variant: "tweaked", Rounds: []round{{Key: key, Digest: "sha256", Outcome: "ok"}}}
+				other, _ := rp.Replay(c2, true)
+				if other != "" {
+					od, _ := os.ReadFile(other)
+					if lo, err := parsePE(od); err == nil && lo.certOff > 0 {
+						entry := od[lo.certOff : lo.certOff+lo.certSize]
+						for _, front := range []bool{false, true} {
+							g := append([]byte(nil), signed...)
+							lg, _ := parsePE(g)
+							mine := g[lg.certOff : lg.certOff+lg.certSize]
+							var table []byte
+							if front {
+								table = append(append([]byte(nil), entry...), mine...)
+							} else {
+								table = append(append([]byte(nil), mine...), entry...)
+							}
+							g = append(g[:lg.certOff], table...)
+							binary.LittleEndian.PutUint32(g[lg.certEntry+4:], uint32(len(table)))
+							os.WriteFile(work, g, 0600)
+							r.Eval(true)
+							if err := verify(work, orig); err == nil {
+								r.Fail(map[string]string{"engine": "tamper", "type": typ, "region": "graft"}, map[string]any{"front": front, "key": key},
+									"%s/%s: a valid signature made over a DIFFERENT image was added to the certificate table (front=%v) and the verifier reports success for all entries", typ, key, front)
+							}
+						}
+						r.Count("grafts", 1)
+					}
+					os.RemoveAll(filepath.Dir(other))
+				}
+			}
 			os.RemoveAll(filepath.Dir(final))
 		}
 	}
